@@ -923,6 +923,12 @@ func checkObjIndexEveryBlock(p *Program, r *Report) {
 			return false
 		}
 		isUint64Field := func(v ssa.Value) bool {
+			// the block position: a uint64 field of the writer, or handed in as a parameter
+			if pa, ok := v.(*ssa.Parameter); ok {
+				if b, ok := pa.Type().Underlying().(*types.Basic); ok && b.Kind() == types.Uint64 {
+					return true
+				}
+			}
 			return fromField(v, func(t types.Type) bool {
 				b, ok := t.Underlying().(*types.Basic)
 				return ok && b.Kind() == types.Uint64
